@@ -56,6 +56,7 @@ type Node struct {
 	Block     chan struct{} // when non-nil Process waits for it to be closed
 	Entered   chan struct{} // when non-nil receives a token on every Process entry (buffered by the test)
 	OnProcess func()
+	OnReopen  func(n int64) error // called with the running count of Reopen calls; its error is returned
 }
 
 func (n *Node) Process(ctx context.Context, e *eventlogger.Event) (*eventlogger.Event, error) {
@@ -78,7 +79,13 @@ func (n *Node) Process(ctx context.Context, e *eventlogger.Event) (*eventlogger.
 	return e, nil
 }
 
-func (n *Node) Reopen() error { n.Reopened.Add(1); return nil }
+func (n *Node) Reopen() error {
+	k := n.Reopened.Add(1)
+	if n.OnReopen != nil {
+		return n.OnReopen(k)
+	}
+	return nil
+}
 
 func (n *Node) Type() eventlogger.NodeType {
 	if n.Yield {
